@@ -4,19 +4,41 @@
 (* and the catalogues of chains for the quick and the thorough tier.       *)
 (*                                                                         *)
 (* Probe points 1..4.  Every condition table holds a strictly feasible     *)
-(* point, a boundary point, violated points and (tables 1,3) a point where *)
-(* the condition divides by zero; table 4 is non-negative everywhere (the  *)
-(* harness builds those chains through constraints.as_penalty, whose       *)
-(* condition is a norm).                                                   *)
+(* point, a boundary point, violated points and (tables 1,3,5,10) a point  *)
+(* where the condition divides by zero; tables 4 and 8 are non-negative    *)
+(* everywhere (the harness builds those chains through                     *)
+(* constraints.as_penalty, whose condition is a norm).                     *)
+(*                                                                         *)
+(* Three families of catalogues (each with a quick and a thorough cfg):    *)
+(*   QChains / TChains    the state graph proper: all types, k, h, nesting *)
+(*                        depth 1..3 on integer conditions                 *)
+(*   QBChains / TBChains  boundary values of every argument: conditions in *)
+(*                        halves and thirds, k = 0, h = 0, k and h below 1,*)
+(*                        the types' default k, h = 10, conditions and     *)
+(*                        multipliers scaled by 2^-1074 .. 2^996, explicit *)
+(*                        index 0 for store()                              *)
+(*   QLChains / TLChains  multi-digit iteration counters (up to 12 / 13)   *)
+(*                        and stored lists of that length                  *)
 (***************************************************************************)
 EXTENDS Penalty
 
-MCCondTab == << <<-2, 0, 1, ZD>>, <<0, 2, -1, 1>>, <<1, ZD, 0, -2>>, <<0, 2, 1, 0>> >>
+(*                 1                  2                3                 4               5 (halves)         *)
+MCCondTab == << <<-2, 0, 1, ZD>>, <<0, 2, -1, 1>>, <<1, ZD, 0, -2>>, <<0, 2, 1, 0>>, <<-3, 0, 1, ZD>>,
+(*                 6 (halves)        7 (thirds)       8 (halves, >= 0)  9                10                  *)
+                <<1, 3, -1, 0>>, <<-1, 0, 2, 1>>, <<0, 3, 1, 0>>, <<-1, 0, 1, 2>>, <<1, ZD, 0, -1>> >>
+MCCondDen == <<1, 1, 1, 1, 2, 2, 3, 2, 1, 1>>
 MCBaseTab == << <<0, 0, 0, 0>>, <<3, 0, 7, 1>>, <<-5, 2, 0, 4>> >>
 
-L(ty, k, h, c) == [ty |-> ty, k |-> k, h |-> h, c |-> c]
-Ch(lv, b) == [lv |-> lv, b |-> b, ms |-> 3]
-ChM(lv, b, ms) == [lv |-> lv, b |-> b, ms |-> ms]
+BIG == NoBound
+
+(* a level: type, k = k/kd, h = h/hd, condition table *)
+L6(ty, k, kd, h, hd, c) == [ty |-> ty, k |-> k, kd |-> kd, h |-> h, hd |-> hd, c |-> c]
+L(ty, k, h, c) == L6(ty, k, 1, h, 1, c)
+(* a chain: levels, base table, bounds on the stored lists, scale exponents *)
+Ch6(lv, b, ms, mz, se, ke) == [lv |-> lv, b |-> b, ms |-> ms, mz |-> mz, se |-> se, ke |-> ke]
+Ch(lv, b) == Ch6(lv, b, 3, BIG, 0, 0)
+ChM(lv, b, ms) == Ch6(lv, b, ms, BIG, 0, 0)
+ChB(lv, b) == Ch6(lv, b, 2, BIG, 0, 0)       \* the boundary catalogues: stored lists of total length <= 2
 Shift(t, s) == ((t + s - 1) % 9) + 1
 
 (* ---- quick ---- *)
@@ -47,4 +69,75 @@ TD3 ==   QD3
     \cup {ChM(<<L(LGI, 1, 2, 1), L(QE, 2, 5, 2), L(LGE, 2, 2, 3)>>, 3, 2),
           ChM(<<L(LGE, 1, 5, 2), L(LGE, 2, 2, 1), L(LGI, 1, 2, 3)>>, 2, 2)}
 TChains == TD1 \cup TD2 \cup TD3
+
+(* ---- boundary values (quick) ---- *)
+NoDiv == {QE, LE, UE, UI, QI, LI, LGE}       \* the types that never divide by k or pow(h,n): k = 0, h = 0 legal
+Lin   == {LE, LI, UE, UI}                    \* degree <= 1 in the condition: the extreme scales are representable
+(* conditions in halves (with a ZD point / without) and thirds; as_penalty on halves *)
+QB1 ==   {ChB(<<L(t, 2, 5, c)>>, 2) : t \in 1..9, c \in {5, 6}}
+    \cup {ChB(<<L(t, 3, 2, 7)>>, 1) : t \in 1..9}
+    \cup {ChB(<<L(t, 2, 5, 8)>>, 1) : t \in {QE, LE, QI, LGE}}
+(* k = 0 and h = 0 (falsy, and switch the penalty off), k and h below one (the penalty FALLS with the      *)
+(* iteration), the Lagrange types' default k = 20, the other types' default k = 100 with the default h = 5, *)
+(* a two-digit h, the uniform default k = inf with halves                                                   *)
+QB2 ==   {ChB(<<L(t, 0, 5, 2)>>, 2) : t \in NoDiv}
+    \cup {ChB(<<L(t, 2, 0, 2)>>, 2) : t \in NoDiv}
+    \cup {ChB(<<L6(t, 1, 2, 1, 2, 1)>>, 2) : t \in 1..9}
+    \cup {ChB(<<L6(t, 3, 4, 3, 2, 6)>>, 3) : t \in {QE, UI, BI, LGI, LGE}}
+    \cup {ChB(<<L(t, 20, 5, 1)>>, 2) : t \in {LGI, LGE}}
+    \cup {ChB(<<L(t, 100, 5, 3)>>, 3) : t \in {QE, LE, BI, QI, LI}}
+    \cup {ChB(<<L(t, 1, 10, 2)>>, 2) : t \in {LE, QI, LGI}}
+    \cup {ChB(<<L(t, INF, 5, 6)>>, 2) : t \in {UE, UI}}
+(* conditions that are tiny but not zero (2^-40 ~ 1e-12, 2^-500 ~ 3e-151) or huge (2^40, 2^500 ~ 3e150): *)
+(* base function 0, so every value is representable                                                       *)
+QB3 ==   {Ch6(<<L(t, 2, 5, 9)>>, 1, 2, BIG, se, 0) : t \in 1..9, se \in {-40, 500}}
+    \cup {Ch6(<<L(t, 100, 2, 10)>>, 1, 2, BIG, se, 0) : t \in {QE, UE, BI, LI, LGI, LGE}, se \in {-500, 40}}
+    \cup {Ch6(<<L(t, 2, 5, 9)>>, 1, 2, BIG, se, 0) : t \in Lin, se \in {-1074, 996}}        \* 5e-324, ~1e300
+(* multipliers that are huge (2 * 2^33 ~ 1.7e10, 2^990 ~ 1e298) or tiny (2^-1000) *)
+QB4 ==   {Ch6(<<L(t, 2, 5, 2)>>, 1, 2, BIG, 0, 33) : t \in 1..9}
+    \cup {Ch6(<<L(t, 1, 2, 1)>>, 1, 2, BIG, 0, ke) : t \in {QE, UI, BI, LI, LGI, LGE}, ke \in {990, -1000}}
+    \cup {Ch6(<<L(t, 2, 5, 9)>>, 1, 2, BIG, -40, 33) : t \in {QE, LE, LGI}}
+(* stacked: fractions next to a history-holding type; k = 0 outside / inside; two scaled levels of one degree *)
+QB5 ==   {ChB(<<L6(QE, 1, 2, 2, 1, 5), L(LGI, 2, 5, 6)>>, 2),
+          ChB(<<L(LGE, 2, 5, 6), L6(LI, 1, 1, 1, 2, 5)>>, 3),
+          ChB(<<L(QE, 0, 5, 1), L(LGE, 1, 2, 2)>>, 2),
+          ChB(<<L(LGI, 1, 2, 2), L(UE, 2, 0, 1)>>, 2),
+          Ch6(<<L(QI, 2, 5, 9), L(LGE, 1, 2, 10)>>, 1, 2, BIG, -500, 0),
+          Ch6(<<L(UI, 2, 5, 9), L(UE, 1, 2, 10)>>, 2, 2, BIG, -1074, 0)}
+QBChains == QB1 \cup QB2 \cup QB3 \cup QB4 \cup QB5
+
+(* ---- boundary values (thorough) ---- *)
+TB1 ==   {ChM(<<L(t, kh[1], kh[2], c)>>, 2, 3) : t \in 1..9, kh \in {<<2, 5>>, <<3, 2>>}, c \in {5, 6, 7}}
+    \cup {ChM(<<L(t, 2, 5, 8)>>, 1, 3) : t \in 1..9}
+TB2 ==   {ChM(<<L(t, 0, h, c)>>, 2, 3) : t \in NoDiv, h \in {0, 5}, c \in {2, 6}}
+    \cup {ChM(<<L(t, k, 0, c)>>, 2, 3) : t \in NoDiv, k \in {2, 100}, c \in {2, 6}}
+    \cup {ChM(<<L6(t, k[1], k[2], h[1], h[2], c)>>, 2, 3) : t \in 1..9, k \in {<<1, 2>>, <<3, 4>>}, h \in {<<1, 2>>, <<3, 2>>}, c \in {1, 6}}
+    \cup {ChM(<<L(t, 20, 5, c)>>, 2, 3) : t \in {LGI, LGE}, c \in {1, 6}}
+    \cup {ChM(<<L(t, 100, 5, c)>>, 3, 3) : t \in {QE, LE, BI, QI, LI}, c \in {3, 5}}
+    \cup {ChM(<<L(t, 1, 10, 2)>>, 2, 3) : t \in 1..9}
+    \cup {ChM(<<L(t, INF, 5, c)>>, 2, 3) : t \in {UE, UI}, c \in {5, 6, 7}}
+TB3 ==   {Ch6(<<L(t, kh[1], kh[2], c)>>, 1, 3, BIG, se, 0) : t \in 1..9, kh \in {<<2, 5>>, <<100, 2>>}, c \in {9, 10}, se \in {-500, -40, 40, 500}}
+    \cup {Ch6(<<L(t, 2, 5, c)>>, 1, 3, BIG, se, 0) : t \in Lin, c \in {9, 10}, se \in {-1074, -1022, 996}}
+TB4 ==   {Ch6(<<L(t, 2, 5, c)>>, 1, 3, BIG, 0, ke) : t \in 1..9, c \in {1, 2}, ke \in {33, 990, -1000}}
+    \cup {Ch6(<<L(t, 2, 5, 9)>>, 1, 3, BIG, se, 33) : t \in 1..9, se \in {-40, 40}}
+TB5 ==   QB5
+    \cup {ChM(<<L6(t, 1, 2, 2, 1, 5), L(g, 2, 5, 6)>>, 2, 2) : t \in 1..9, g \in {LGI, LGE}}
+    \cup {ChM(<<L(g, 2, 5, 6), L6(t, 1, 1, 1, 2, 5)>>, 3, 2) : t \in 1..9, g \in {LGI, LGE}}
+    \cup {ChM(<<L(t, 0, 5, 2), L(LGE, 1, 2, 2)>>, 2, 2) : t \in NoDiv}
+    \* two scaled levels of the same degree in the condition (their sum is representable)
+    \cup {Ch6(<<L(tt[1], 2, 5, 9), L(tt[2], 1, 2, 10)>>, 1, 2, BIG, -500, 0) :
+             tt \in {<<QE, QI>>, <<QI, LGE>>, <<LGI, QE>>, <<LGE, LGI>>, <<LE, LI>>}}
+TBChains == TB1 \cup TB2 \cup TB3 \cup TB4 \cup TB5
+
+(* ---- multi-digit counters ---- *)
+(* at most two (thorough: one) non-zero stored multipliers (mz): the lists grow to the length of the counter *)
+QLChains ==   {Ch6(<<L(t, 1, 2, 2)>>, 2, 13, 2, 0, 0) : t \in 1..7}
+         \cup {Ch6(<<L6(t, 3, 1, 1, 2, 6)>>, 3, 13, 2, 0, 0) : t \in {QE, UI, BI, LI}}
+         \cup {Ch6(<<L(LGE, 1, 2, 1)>>, 2, 13, 2, 0, 0), Ch6(<<L(LGI, 1, 2, 2)>>, 2, 13, 2, 0, 0),
+               Ch6(<<L(LE, 2, 3, 2), L(QI, 1, 2, 1)>>, 3, 13, 2, 0, 0)}
+TLChains ==   {Ch6(<<L(t, kh[1], kh[2], 2)>>, 2, 14, 1, 0, 0) : t \in 1..7, kh \in {<<1, 2>>, <<2, 3>>}}
+         \cup {Ch6(<<L6(t, 3, 1, 1, 2, 6)>>, 3, 14, 1, 0, 0) : t \in 1..9}
+         \cup {Ch6(<<L(g, 1, 2, c)>>, 2, 14, 1, 0, 0) : g \in {LGE, LGI}, c \in {1, 2}}
+         \cup {Ch6(<<L(LE, 2, 3, 2), L(QI, 1, 2, 1)>>, 3, 14, 1, 0, 0),
+               Ch6(<<L(QE, 1, 2, 2), L(LGE, 1, 2, 6)>>, 2, 14, 1, 0, 0)}
 =============================================================================
